@@ -756,7 +756,9 @@ def solve_round(ctx, fact, rnd):
     if fact == FACTS[(ctx.seed + rnd + 2) % 3]:
         # both error estimators read the state through pytree helpers (number of Taylor coefficients = contraction rate,
         # reference coefficient): one adaptive pytree-vs-flat comparison per estimator family in every run, whatever the rotation
-        for est in ("residual", "state1"):
+        # ("state1" alone is not enough: with derivative_idx = 1 per unit step the runs are so easy that every step is clipped to
+        # a checkpoint and the controller's exponent - the contraction rate read through the pytree helper - never matters; C15-s10)
+        for est in ("residual", "state", "state1"):
             cfg_e = dataclasses.replace(ca, est=est)
             if cfg_e == cfg_t:
                 continue
